@@ -83,7 +83,10 @@ theorem planSt_ref : (t : Ty) → ∀ (v : HVal) (st : St) (k : Nat) (o : Obj), 
   | .map mk kt vt, v, st, k, o, g, hv, hp, hdn, hk, hl => by
     rcases dict_cases g hv hp hdn with ⟨l, kvs, okvs, k', rfl, _, h1, rfl, rfl, h3, h4⟩ | ⟨h1, h2⟩
     · simp only [h1, planSt]
-      have hl' : litLeaf kt = true ∧ litLeaf vt = true := by simpa only [litLeaf, Bool.and_eq_true] using hl
+      have hl0 : (mk.target.isNone = true ∧ litLeaf kt = true) ∧ litLeaf vt = true := by
+        simpa only [litLeaf, Bool.and_eq_true] using hl
+      have hmk : mk.target = Option.none := by simpa using hl0.1.1
+      have hl' : litLeaf kt = true ∧ litLeaf vt = true := ⟨hl0.1.2, hl0.2⟩
       have := exec_build_ref hrec (href k' (by omega)) (K + dW w) (by omega) hc.cfg.detailed false
         .dict (kvTasks (.st kt) (.st vt) kvs) (flatKV okvs) st g
         (fun t' ht => h4 _ (kvTasks_args ht))
@@ -92,7 +95,7 @@ theorem planSt_ref : (t : Ty) → ∀ (v : HVal) (st : St) (k : Nat) (o : Obj), 
       simp only [buildPure, Bool.false_eq_true, if_false, pureTasks_stFKV w _ kt vt kvs okvs (denoteKV_length h3), stF]
       cases stFKV w hc.cfg.core kt vt okvs with
       | none => rfl
-      | some r => simp only [Option.map_some, Option.bind_some, asmPure, pairUpO_flat]
+      | some r => simp only [Option.map_some, Option.bind_some, asmPure, pairUpO_flat, mapRes_plain _ _ hmk]
     · rw [stF_map_nondict w _ mk kt vt h2]
       rcases viewOf_nondict_cases h1 with hvw | ⟨c, hvw, hc'⟩
       · rw [hvw]; simp only [planSt]
